@@ -3,6 +3,7 @@ CONSTANTS
   MaxH = 10
   Page = 3
   TSet = {0}
+  RSet = {}
   RUB = TRUE
   MTB = 1
   GCP = 1
